@@ -92,6 +92,9 @@ STOREFOR_GHOST = '''
     /// ghost: the callbacks around an insertion succeed for this item in this state
     spec fn preinsert_ok(rest: Self::Rest, item: T) -> bool;
     spec fn inserted_ok(rest: Self::Rest, item: T) -> bool;
+    /// ghost: implementation specific postconditions of the callbacks (what they do to the reverse indices)
+    spec fn inserted_post(pre: Self, post: Self, handle: T::HandleType, ok: bool) -> bool;
+    spec fn preremove_post(pre: Self, post: Self, handle: T::HandleType, ok: bool) -> bool;
     /// ghost: preremove(handle) succeeds in this state
     spec fn preremove_ok(s: Self, handle_idx: usize) -> bool;
 '''
@@ -221,7 +224,7 @@ pub open spec fn temp_letter(t: Type) -> char {
            ensures=[('handle', 'r.spec_handle() == Some(handle)'), ('id', 'r.spec_id() == self.spec_id()')]),
         Fn('generate_id', props=P, ret='r', decl_only=True, sig_rewrites=[('R-decl', r'\s*where\s*Self: Sized,', '')],
            ensures=[('handle', 'r.spec_handle() == self.spec_handle()')]),
-        Fn('merge', props=P, ret='r', ensures=[('identity', 'final(self).spec_handle() == old(self).spec_handle() && final(self).spec_id() == old(self).spec_id()')]),
+        Fn('merge', props=P, ret='r', requires=[('same_id', 'other.spec_id() == old(self).spec_id()')], ensures=[('identity', 'final(self).spec_handle() == old(self).spec_handle() && final(self).spec_id() == old(self).spec_id()')]),
     ], verus_header='pub trait Storable: PartialEq + TypeInfo + Sized',
         extra='    type HandleType: Handle;\n' + STORABLE_GHOST)
     u.item(ST, 'type', 'Store')
@@ -235,6 +238,7 @@ pub open spec fn temp_letter(t: Type) -> char {
         Fn('inserted', props=P, ret='r', decl_only=True,
            requires=[('live', 'live(old(self).view_store(), handle.idx() as int)')],
            ensures=[('frame', UNCHANGED),
+                    ('post', 'Self::inserted_post(*old(self), *final(self), handle, r is Ok)'),
                     ('ok_if', 'Self::inserted_ok(old(self).view_rest(), old(self).view_store()[handle.idx() as int].unwrap()) ==> r is Ok')]),
         Fn('preremove', props=P, ret='r', decl_only=True,
            requires=[('wf', 'idmap_wf(old(self).view_store(), old(self).view_idmap())')],
@@ -245,6 +249,122 @@ pub open spec fn temp_letter(t: Type) -> char {
                     ('keeps_target', 'r is Ok && live(old(self).view_store(), handle.idx() as int) ==> final(self).view_store()[handle.idx() as int] == old(self).view_store()[handle.idx() as int]'),
                     ('config', 'final(self).view_temp_ids() == old(self).view_temp_ids() && final(self).view_config() == old(self).view_config()'),
                     ('ok_iff', 'r is Ok <==> Self::preremove_ok(*old(self), handle.idx())'),
+                    ('post', 'Self::preremove_post(*old(self), *final(self), handle, r is Ok)'),
                     ('no_cascade', 'Self::cascade_free() ==> final(self).view_store() == old(self).view_store() && final(self).view_idmap() == old(self).view_idmap()')]),
     ]
     return callbacks
+
+
+def emit_storefor(u, P):
+    """the generic StoreFor<T> trait with its default methods under contract (R-request instances, R-flatten callbacks)"""
+    sc = __import__('contracts.store_common', fromlist=['x'])
+    ST = sc.ST
+    callbacks = sc.emit_store_layer(u, P)
+    for cb in callbacks:
+        cb.from_block = (ST, 'pub trait StoreCallbacks<T: crate::store::Storable>')
+        cb.sig_rewrites.append(('R-path', r'crate::error::StamError', 'StamError'))
+    str_req = sc.inline_request(sc.request_body(u, "impl<'a, T> Request<T> for &'a str"))
+    h_req = sc.inline_request(sc.handle_request_body(u))
+
+    def req_variants(name, **kw):
+        """R-request: one instance per request type used"""
+        out = []
+        for suffix, ty, body in (('__str', '&str', str_req), ('__handle', 'T::HandleType', h_req)):
+            k = dict(kw)
+            ens = k.pop('ensures_fn')(suffix)
+            out.append(Fn(name, emit_name=name + suffix, props=P, ret='r',
+                          sig_rewrites=[('R-request', r'item: impl Request<T>', f'item: {ty}')],
+                          rewrites=[('R-request', r'item\.to_handle\(self\)', body)] + k.pop('rewrites', []),
+                          ensures=ens, **k))
+        return out
+
+    def target(suffix):
+        # the handle index the request denotes
+        if suffix == '__str':
+            return "(match self.view_idmap() { Some(m) => resolves_to::<T>(m, self.view_temp_ids(), item@), None => None })"
+        return 'Some(item.idx())'
+
+    def get_ens(suffix):
+        t = target(suffix)
+        return [('ok_iff', f'r is Ok <==> ({t} is Some && live(self.view_store(), {t}.unwrap() as int))'),
+                ('item', f'r is Ok ==> *r->Ok_0 == self.view_store()[{t}.unwrap() as int].unwrap()')]
+
+    def has_ens(suffix):
+        t = target(suffix)
+        return [('iff', f'r <==> ({t} is Some && live(self.view_store(), {t}.unwrap() as int))')]
+
+    def get_mut_ens(suffix):
+        t = target(suffix).replace('self.', 'old(self).')
+        return [('ok_iff', f'r is Ok <==> ({t} is Some && live(old(self).view_store(), {t}.unwrap() as int))'),
+                ('item', f'r is Ok ==> *r->Ok_0 == old(self).view_store()[{t}.unwrap() as int].unwrap()'),
+                ('writes_back', f'r is Ok ==> final(self).view_store() == old(self).view_store().update({t}.unwrap() as int, Some(*final(r->Ok_0)))'),
+                ('err_frame', 'r is Err ==> final(self).view_store() == old(self).view_store()'),
+                ('frame', 'final(self).view_idmap() == old(self).view_idmap() && final(self).view_temp_ids() == old(self).view_temp_ids() && final(self).view_config() == old(self).view_config()')]
+
+    def remove_ens(suffix):
+        t = target(suffix).replace('self.', 'old(self).')
+        return [('ok_iff_resolves', f'r is Ok ==> {t} is Some && live(old(self).view_store(), {t}.unwrap() as int)'),
+                ('tombstone', f'r is Ok ==> final(self).view_store()[{t}.unwrap() as int] is None'),
+                ('only_shrinks', 'store_shrinks(old(self).view_store(), final(self).view_store())'),
+                ('wf', 'r is Ok ==> idmap_wf(final(self).view_store(), final(self).view_idmap())'),
+                ('id_gone', f'''r is Ok && final(self).view_idmap() is Some ==> forall|id: Seq<char>| #[trigger] final(self).view_idmap().unwrap().contains_key(id) ==> final(self).view_idmap().unwrap()[id].idx() != {t}.unwrap()'''),
+                ('idmap_sub', 'old(self).view_idmap() is Some ==> final(self).view_idmap() is Some && final(self).view_idmap().unwrap().submap_of(old(self).view_idmap().unwrap())'),
+                ('exact', f'''r is Ok && Self::cascade_free() ==> final(self).view_store() == old(self).view_store().update({t}.unwrap() as int, None)
+                      && (old(self).view_idmap() is Some ==> final(self).view_idmap() == Some(match old(self).view_store()[{t}.unwrap() as int].unwrap().spec_id() {{ Some(id) => old(self).view_idmap().unwrap().remove(id), None => old(self).view_idmap().unwrap() }}))'''),
+                ('succeeds', f'(Self::cascade_free() && {t} is Some && live(old(self).view_store(), {t}.unwrap() as int) && Self::preremove_ok(*old(self), {t}.unwrap())) ==> r is Ok')]
+
+    fns = [
+        Fn('store', props=P, ret='r', ensures=[('view', 'r@ == self.view_store()')]),
+        Fn('store_mut', props=P, ret='r',
+           ensures=[('view', 'r@ == old(self).view_store()'), ('writes_back', 'final(self).view_store() == final(r)@'),
+                    ('frame', 'final(self).view_idmap() == old(self).view_idmap() && final(self).view_temp_ids() == old(self).view_temp_ids() && final(self).view_config() == old(self).view_config() && final(self).view_rest() == old(self).view_rest()')]),
+        Fn('idmap_mut', props=P, ret='r', decl_only=True,
+           ensures=[('view', '''match r { Some(m) => old(self).view_idmap() == Some(m.data@) && m.resolve_temp_ids == old(self).view_temp_ids()
+                                 && final(self).view_idmap() == Some(final(m).data@) && final(self).view_temp_ids() == final(m).resolve_temp_ids,
+                             None => old(self).view_idmap() is None && final(self).view_idmap() is None && final(self).view_temp_ids() == old(self).view_temp_ids() }'''),
+                    ('frame', 'final(self).view_store() == old(self).view_store() && final(self).view_config() == old(self).view_config() && final(self).view_rest() == old(self).view_rest()')]),
+        Fn('idmap', props=P, ret='r', decl_only=True,
+           ensures=[('view', 'match r { Some(m) => self.view_idmap() == Some(m.data@) && m.resolve_temp_ids == self.view_temp_ids(), None => self.view_idmap() is None }')]),
+        Fn('store_typeinfo', props=P, ret='r'),
+        Fn('config', props=P, ret='r', from_block=('src/config.rs', 'pub trait Configurable: Sized'), ensures=[('view', '*r == self.view_config()')]),
+    ] + callbacks + [
+        Fn('resolve_id', props=P + ['C19'], ret='r',
+           rewrites=[('R-outline', r'id\.starts_with\(T::temp_id_prefix\(\)\)', 'vx_starts_with(id, T::temp_id_prefix())'),
+                     ('R-err', r'id\.to_string\(\)', 'vx_msg()')],
+           ensures=[('ok_iff', 'r is Ok <==> (self.view_idmap() is Some && resolves_to::<T>(self.view_idmap().unwrap(), self.view_temp_ids(), id@) is Some)'),
+                    ('handle', 'r is Ok ==> r->Ok_0.idx() == resolves_to::<T>(self.view_idmap().unwrap(), self.view_temp_ids(), id@).unwrap()')],
+           prologue='proof { T::HandleType::hmax_bound(); }'),
+        Fn('next_handle', props=P, ret='r', requires=[('fits', 'self.view_store().len() <= T::HandleType::hmax()')],
+           ensures=[('next', 'r.idx() == self.view_store().len()')]),
+    ] + req_variants('has', ensures_fn=has_ens) + req_variants('get', ensures_fn=get_ens) \
+      + req_variants('get_mut', ensures_fn=get_mut_ens) + req_variants('remove', ensures_fn=remove_ens, requires=[('wf', 'idmap_wf(old(self).view_store(), old(self).view_idmap())')],
+                                                                        rewrites=[('R-outline', r'item\.id\(\)\.map\(\|x\| x\.to_string\(\)\)', 'vx_owned(item.id())')])
+    # ------------------------------------------------------------------ insert
+    OLD = 'old(self).view_store()'
+    OLDM = 'old(self).view_idmap()'
+    UNCH = 'final(self).view_store() == old(self).view_store() && final(self).view_idmap() == old(self).view_idmap()'
+    # the id of the item resolves to an existing live item (duplicate id)
+    DUP = f'(T::spec_carries_id() && item.spec_id() is Some && {OLDM} is Some && resolves_to::<T>({OLDM}.unwrap(), old(self).view_temp_ids(), item.spec_id().unwrap()) is Some && live({OLD}, resolves_to::<T>({OLDM}.unwrap(), old(self).view_temp_ids(), item.spec_id().unwrap()).unwrap() as int))'
+    GEN = '(T::spec_carries_id() && item.spec_id() is None && old(self).view_config().generate_ids)'
+    fns.append(Fn('insert', props=P, ret='r',
+                  rewrites=[('R-request', r'self\.has\(id\)', 'self.has__str(id)'),
+                            ('R-request', r'self\.get\(id\)', 'self.get__str(id)'),
+                            ('R-request', r'self\.get_mut\(id\)', 'self.get_mut__str(id)'),
+                            ('R-closure-inline', r'self\.idmap_mut\(\)\.map\(\|idmap\| \{(.*?)\}\);', r'if let Some(idmap) = self.idmap_mut() {\1; }'),
+                            ('R-asserteq', r'assert_eq!\(handle, T::HandleType::new\(self\.store\(\)\.len\(\) - 1\), "[^"]*"\);', 'vx_assert_eq_handle(handle, T::HandleType::new(self.store().len() - 1));')],
+                  after=[('item = item.with_handle(self.next_handle());', 'proof { T::HandleType::idx_injective(intid, item.spec_handle().unwrap()); }')],
+                  requires=[('wf', f'idmap_wf({OLD}, {OLDM})'),
+                            ('fits', f'{OLD}.len() < T::HandleType::hmax()'),
+                            ('unbound_or_next', f'item.spec_handle() is None || item.spec_handle().unwrap().idx() == {OLD}.len()'),
+                            ('id_not_temp_form', 'item.spec_id() is Some ==> !is_temp_form::<T>(old(self).view_temp_ids(), item.spec_id().unwrap())')],
+                  ensures=[
+                      ('duplicate_rejected', f'{DUP} && !old(self).view_config().merge ==> (r is Err || (r is Ok && r->Ok_0.idx() == resolves_to::<T>({OLDM}.unwrap(), old(self).view_temp_ids(), item.spec_id().unwrap()).unwrap())) && {UNCH}'),
+                      ('atomic', f'r is Err && !old(self).view_config().merge && (forall|it: T| #![trigger Self::preinsert_ok(old(self).view_rest(), it)] #![trigger Self::inserted_ok(old(self).view_rest(), it)] Self::preinsert_ok(old(self).view_rest(), it) && Self::inserted_ok(old(self).view_rest(), it)) ==> {UNCH}'),
+                      ('appends', f'r is Ok && !{DUP} ==> r->Ok_0.idx() == {OLD}.len() && final(self).view_store().len() == {OLD}.len() + 1 && final(self).view_store().take({OLD}.len() as int) =~= {OLD} && final(self).view_store().last() is Some && final(self).view_store().last().unwrap().spec_handle() == Some(r->Ok_0)'),
+                      ('keeps_id', f'r is Ok && !{DUP} && !{GEN} ==> final(self).view_store().last().unwrap().spec_id() == item.spec_id()'),
+                      ('idmap', f'r is Ok && !{DUP} && !{GEN} ==> (final(self).view_idmap() is Some <==> {OLDM} is Some) && ({OLDM} is Some ==> final(self).view_idmap().unwrap() =~= (if T::spec_carries_id() && item.spec_id() is Some {{ {OLDM}.unwrap().insert(item.spec_id().unwrap(), r->Ok_0) }} else {{ {OLDM}.unwrap() }}))'),
+                      ('wf', f'r is Ok && !{DUP} && !{GEN} && (!T::spec_carries_id() ==> item.spec_id() is None) && (item.spec_id() is Some ==> !is_temp_form::<T>(old(self).view_temp_ids(), item.spec_id().unwrap())) ==> idmap_wf(final(self).view_store(), final(self).view_idmap())'),
+                  ]))
+    u.impl(ST, 'pub trait StoreFor<T: Storable>: Configurable + private::StoreCallbacks<T>', fns,
+           verus_header='pub trait StoreFor<T: Storable>: Sized', extra=sc.STOREFOR_GHOST)
+    return dict(str_req=str_req, h_req=h_req)
